@@ -50,6 +50,9 @@ def universe():
         "E5": Entry("y", "e5", [Field("abcde", "{five}")], raw="@y{e5, abcde = {five}}"),  # len(key)+3 == 8
         "EU": Entry("z", "eu", [Field("straße", "{x}"), Field("İstanbul_ﬁ", "{y}"), Field("k", "{z}")], raw="@z{eu, ...}"),
         "Ee": Entry("q", "ee", [Field("", "{x}")], raw="@q{ee, = {x}}"),  # the empty field key (the splitter yields it for ', = {x}'): length 0
+        # the last value ends in characters the writer itself puts after a value; a key held twice (built by a program)
+        "Ev": Entry("v", "ev", [Field("a", "{x}"), Field("b", "1990,")], raw="@v{ev, a = {x}, b = 1990,}"),
+        "Er": Entry("r", "er", [Field("a", "{1}"), Field("bbbbbbbbbb", "{2}"), Field("a", "{3}\n")], raw="@r{er, ...}"),
         "S": String("s", "{v}", raw="@string{s = {v}}"),
         "P": Preamble('"pre"'),
         "IC": ImplicitComment("% free text"),
